@@ -254,10 +254,10 @@ pub fn run(ctx: &Ctx) {
     ctx.set_rule("proptest generates (algorithm Opt/RevOpt, f64/f32, m, companion size m2, pool of distinct items sized m/8 | m | 4m, history of 1..23 operations Sketch(x) | Slice(xs, possibly empty) | End | Reinit | Views, a second overlapping set). \
         Two sketchers run in lock-step (one replaces every sketch_slice by item-wise sketch + end_sketch) and their raw states (guarded hook) must stay identical; around each finishing step: populated bins untouched, every other bin receives the (value, hash) pair \
         of a populated bin, no empty bin remains, a second end_sketch changes nothing; published u64 positions are hashes of items streamed since the last reinit; u32 is a function of u64 across positions, both algorithms and two sizes; equal u64 => equal float; \
-        two same-size sketches of overlapping sets that agree at a position in u64 agree in float and u32. Finishing with no item streamed must report failure (panic/Err) or at least never publish a sketch; a case exceeding the 20 s watchdog is reported as non-termination. \
+        two same-size sketches of overlapping sets that agree at a position in u64 agree in float and u32. Finishing with no item streamed must report failure (panic/Err) or at least never publish a sketch; a case exceeding the 45 s watchdog is reported as non-termination. \
         Non-trivial = at least one finishing step that filled at least one empty bin.");
     ctx.assume("sketching more items into an already finished sketcher is exercised, but only the claims that stay meaningful there are asserted (positions hold streamed hashes, slice == item-wise + end, idempotence)");
-    ctx.assume("the 20 s watchdog is used as the non-termination signal because termination is what the property claims; the same work normally takes microseconds");
+    ctx.assume("the 45 s watchdog is used as the non-termination signal because termination is what the property claims; the same work normally takes microseconds");
     super::run_fixed_tier(ctx, replay);
     let (cases, max_m) = ctx.tier.pick((60_000, 256), (1_500_000, 2048));
     ctx.drive("history", cases, 16, 2000, || strategy(max_m), eval);
